@@ -126,7 +126,7 @@ class ReadPathRun:
                 type_source = ""
                 type_def = ""
                 a: Int32 = Int32()
-                b: Int32 = Int32()
+                size: Int32 = Int32()          # (an ordinary field name; it shadows nothing the reader may rely on)
         else:
             class MDF_SCRATCH(pyrtma.MessageData, metaclass=MessageMeta):
                 type_id = SCRATCH_TYPE
@@ -337,6 +337,16 @@ class ReadPathRun:
                         sig="still_connected:" + str(self.closed_kind))
         except (UnknownMessageType, InvalidMessageDefinition):
             outcome = "decode_error"
+        except Exception as e:
+            from pyrtma.exceptions import NotConnectedError
+            if isinstance(e, NotConnectedError):
+                res.add("C08", "silently_disconnected", "discard_messages: NotConnectedError although the loss of the "
+                                                        "connection was never reported as ConnectionLost",
+                        sig="silently_disconnected")
+            else:
+                res.add("C08", "undocumented_exception", f"discard_messages raised {type(e).__name__}: {e}",
+                        sig="undocumented_exception:" + type(e).__name__)
+            outcome = "lost"
         res.probes["discard_messages_" + outcome] += 1
         if outcome != "lost":
             ends = {0} | {f.end for f in self.frames}
@@ -400,7 +410,8 @@ class ReadPathRun:
                     sig="undocumented_exception:" + type(val).__name__)
             return
         if outcome == "notconnected":
-            res.add("C08", "sim_internal", f"{ctx}: NotConnectedError while the harness thought it connected")
+            res.add("C08", "silently_disconnected", f"{ctx}: NotConnectedError although the loss of the connection was "
+                                                    f"never reported as ConnectionLost", sig="silently_disconnected")
             return
         if pos0 != (F[0].start if F else pos0) or any(f.start == pos0 for f in self.frames) is False and pos0 != self.stream_len \
                 and pos0 != (self.closed_at if self.closed_at is not None else -1):
